@@ -241,11 +241,12 @@ Definition select_nft_winners_endpoint (e : env) (b : nat) (w : world) : res (wo
           | OpExtra (XRng r) => Ok (r, w)
           | _ => Err FUser
           end;
-  let (r0, w0) := l in
+  let (r0, wl) := l in
+  let w0 := set_st wl (st wl <| op := OpNone |>) in
   do x <- select_nft_winners b w0 r0;
   let '(w1, r1, completed, _) := x in
   if completed then
-    Ok (set_claimable_nft (set_st w1 (st w1 <| op := OpNone |> <| fl_additional := true |>)), 0)
+    Ok (set_claimable_nft (set_st w1 (st w1 <| fl_additional := true |>)), 0)
   else Ok (set_st w1 (st w1 <| op := OpExtra (XRng r1) |>), 1).
 
 (** [secondarySelectionStep] (ngt) *)
@@ -260,14 +261,15 @@ Definition secondary_selection_step (e : env) (b : nat) (w : world) : res (world
           | OpExtra (XCombNft r) => Ok (XCombNft r, w)
           | _ => Err FUser
           end;
-  let (cur, w0) := l in
+  let (cur, wl) := l in
+  let w0 := set_st wl (st wl <| op := OpNone |>) in
   do ph1 <-
     match cur with
     | XCombGt o =>
         do r <- gt_distribution H false b w0 o;
         let '(w1, o1, completed, b1) := r in
         if completed then
-          let w2 := finish_gt (set_st w1 (st w1 <| op := OpNone |>)) o1 in
+          let w2 := finish_gt w1 o1 in
           let (rn, w3) := rng_default w2 in
           Ok (w3, Some rn, b1)
         else Ok (set_st w1 (st w1 <| op := OpExtra (XCombGt o1) |>), None, b1)
@@ -281,7 +283,7 @@ Definition secondary_selection_step (e : env) (b : nat) (w : world) : res (world
       do x <- select_nft_winners b1 w1 r;
       let '(w2, r2, completed, _) := x in
       if completed then
-        Ok (set_st (set_claimable_nft w2) (st (set_claimable_nft w2) <| op := OpNone |> <| fl_additional := true |>), 0)
+        Ok (set_st (set_claimable_nft w2) (st (set_claimable_nft w2) <| fl_additional := true |>), 0)
       else Ok (set_st w2 (st w2 <| op := OpExtra (XCombNft r2) |>), 1)
   end.
 
